@@ -3,6 +3,14 @@
 usage: seed_static.py [--all-props] [seed ids...]     prints one line per seed: own property verdict (+ other properties that fire)"""
 import json, os, shutil, subprocess, sys, tempfile, multiprocessing
 VERIF = os.path.dirname(os.path.dirname(os.path.abspath(__file__))); sys.path.insert(0, VERIF)
+_BASE = {}
+def base_keys(p):
+    """finding keys of the unpatched /repo per property (computed once per process tree: call prime() before forking)"""
+    from sa import report
+    if p not in _BASE: _BASE[p] = {report.fkey(f) for f in report.analyse(p, "/repo").findings}
+    return _BASE[p]
+def prime(props_):
+    for p in props_: base_keys(p)
 def one(args):
     sid, allp = args
     from sa import report, props
@@ -12,7 +20,7 @@ def one(args):
         r = subprocess.run(["patch", "-p1", "-s", "-d", d, "-i", os.path.join(VERIF, "seeded", sid, "patch.diff")], capture_output=True, text=True)
         if r.returncode: return (sid, "PATCH-FAIL", r.stdout[-200:], [])
         own = sid.split("-")[0]
-        base = {report.fkey(f) for f in report.analyse(own, "/repo").findings}
+        base = base_keys(own)
         res = report.analyse(own, d)
         new = [f for f in res.findings if report.fkey(f) not in base]
         verdict = "VIOLATION" if new else ("ANALYSIS-ERROR" if res.errors else "silent")
@@ -21,7 +29,7 @@ def one(args):
         if allp:
             for p in sorted(props.P):
                 if p == own: continue
-                b = {report.fkey(f) for f in report.analyse(p, "/repo").findings}
+                b = base_keys(p)
                 rr = report.analyse(p, d)
                 if any(report.fkey(f) not in b for f in rr.findings): others.append(p)
                 elif rr.errors: others.append(p + "(err)")
@@ -31,6 +39,8 @@ if __name__ == "__main__":
     allp = "--all-props" in sys.argv
     ids = [a for a in sys.argv[1:] if not a.startswith("--")] or sorted(os.listdir(os.path.join(VERIF, "seeded")))
     ids = [i for i in ids if os.path.isdir(os.path.join(VERIF, "seeded", i))]
+    from sa import props as _P
+    prime(sorted(_P.P) if allp else sorted({i.split("-")[0] for i in ids}))
     with multiprocessing.get_context("fork").Pool(min(16, len(ids))) as pool: rs = pool.map(one, [(i, allp) for i in ids], chunksize=1)
     hit = sum(1 for r in rs if r[1] in ("VIOLATION", "ANALYSIS-ERROR"))
     for sid, v, det, oth in rs: print("%-8s %-15s %s %s" % (sid, v, det, ("| also: " + ",".join(oth)) if oth else ""))
